@@ -318,6 +318,16 @@ func (r *LayerManager) release(ctx context.Context, refspec reference.Spec, tocD
 		delete(r.refcounter[refspec.String()], tocDigest.String())
 		if len(r.refcounter[refspec.String()]) == 0 {
 			delete(r.refcounter, refspec.String())
+			// no reference to this image. So release the layers that were resolved along with the used ones as well.
+			for k, ol := range r.layer[refspec.String()] {
+				if k != tocDigest.String() {
+					ol.Done()
+					delete(r.layer[refspec.String()], k)
+				}
+			}
+			if r.layer[refspec.String()] != nil && len(r.layer[refspec.String()]) == 0 {
+				delete(r.layer, refspec.String())
+			}
 		}
 		// This layer is going away. So reset the resolve status of this image as well; the next lookup resolves it again.
 		delete(r.resolveLayerCache, refspec.String())
